@@ -3,9 +3,24 @@
 from checks._suitecheck import run_one
 
 
+def plain_assignment_bits(chk, tier):
+    """`c = v' stores v and yields v bit for bit (the zero of the other sign over a zero, NaN): the float pairs of
+    `vh arith record' (IEEE detail, not expressible in the specification's half-integer floats)."""
+    import json, os
+    from vlib import common as C
+    work = C.workdir("c13_assign_bits")
+    _, txt = C.run_vh(["arith", "record", os.path.join(work, "rec.ndjson"), "0", "300" if tier == "quick" else "5000", "-"])
+    r = json.loads(txt)
+    for m in r.get("mismatches", []):
+        if m.get("form") == "plain_assign":
+            chk.violation({"kind": "plain-assignment-not-bit-exact", "program": m.get("program"), "a": m.get("a"), "b": m.get("b")}, m)
+    chk.cov["plain_assignments_checked_bitwise"] = r.get("records", 0)
+
+
 def run(tier):
     return run_one("C13", "c13", tier,
         "histories of <= 2 assignments x declared cell type x alias used for the write x operator/operand pool "
         "(incl. failing operands); after every step the cell is read through all aliases; distinct by source "
         "text; compared: result, every read tuple, final content of the cell (also after a failing update)",
-        ["write events are judged one by one (new = op(old, rhs), new in declared type); the order of writes to a cell is not re-validated"], gen=3000)
+        ["write events are judged one by one (new = op(old, rhs), new in declared type); the order of writes to a cell is not re-validated"], gen=3000,
+        extra_stage=plain_assignment_bits)
